@@ -96,6 +96,16 @@ MaskOf(rec, g) == IF g = "gp" THEN rec.gp ELSE IF g = "vec" THEN rec.vec ELSE IF
 InSeq(x, s) == \E q \in 1..Len(s) : s[q] = x
 MayWrite(cs, r) == InSeq(r[2], MaskOf(cs.frame.dirty, r[1])) \/ ~InSeq(r[2], MaskOf(cs.frame.pres, r[1]))
 
+(* Nothing but the destination slots may be written: every memory cell that is not an incoming stack argument must lie inside *)
+(* the slot [off, off + size of the destination type) of some stack destination (unwritten memory is unknown = poison, so a    *)
+(* partially written destination fails Final; a store that spills over a destination's end or lands elsewhere fails here).     *)
+StrayStores(m, cs) ==
+  LET spv == RegGet(m, "gp", cs.frame.sp)
+      incoming == { <<"arg", cs.src[q].off>> : q \in { q \in 1..Len(cs.args) : cs.src[q].k = "stack" } }
+      inDst(a, n) == \E q \in Wanted(cs) : cs.dst[q].k = "stack" /\ spv.t = "ptr" /\ a[1] = spv.x
+                                          /\ a[2] >= spv.lo + cs.dst[q].off /\ a[2] + n <= spv.lo + cs.dst[q].off + DstTy(cs, q).sz
+  IN { a \in DOMAIN m.mem : ~(a \in incoming /\ m.mem[a].v.t = "val" /\ m.mem[a].v.c = "" /\ m.mem[a].v.lo = m.mem[a].v.hi) /\ ~inDst(a, m.mem[a].sz) }
+
 SaOk(m, cs) == cs.sa = 255 \/ RegGet(m, "gp", cs.sa) = Ptr("arg", 0 - cs.frame.sa_sa)
 
 (* ------------------------------------------------------------------------------------------------------- *)
@@ -156,9 +166,13 @@ Verdict ==
                 d == cs.dst[q] s == cs.src[q] st == SrcTy(cs, q) dt == DstTy(cs, q)
                 same == d.k = "reg" /\ s.k = "reg" /\ RtGroup(d.rt) = s.g /\ d.id = s.id
                 how == IF same THEN "self" ELSE IF HasOp(cs, "xchg") THEN "xchg" ELSE "move" IN
-            IF NeedsCvt(st, dt) THEN <<cs.family, "final", "float-conversion", d.k, how>>
-            ELSE IF st.c = "int" /\ dt.c = "int" /\ dt.sz > st.sz THEN <<cs.family, "final", "int-extension", d.k, how>>
+            \* the source kind is part of the class only for stack-passed sources (register sources keep their earlier names)
+            IF NeedsCvt(st, dt) THEN <<cs.family, "final", "float-conversion", d.k, how>> \o (IF s.k = "stack" THEN <<"from-stack">> ELSE <<>>)
+            ELSE IF st.c = "int" /\ dt.c = "int" /\ dt.sz > st.sz
+                 THEN <<cs.family, "final", "int-extension", d.k, how>> \o (IF s.k = "stack" THEN <<"from-stack">> ELSE <<>>)
             ELSE <<cs.family, "final", "plain-move", st.c, s.k, d.k>>
+  ELSE IF AtEnd /\ StrayStores(m, cs) # {}
+       THEN LET q == CHOOSE q \in Wanted(cs) : cs.dst[q].k = "stack" IN <<cs.family, "store-outside-destination", SrcTy(cs, q).c>>
   ELSE IF AtEnd /\ ~SaOk(m, cs) THEN <<cs.family, "sa-register">>
   ELSE <<>>
 
